@@ -266,9 +266,13 @@ def check_incremental(ctx):
                           "%s writes it" % f.qualname)
     ctx.floor("R2.3", "stores to the model fields", n, 12)
     up = prog.method("_Linear", "_uptake_new_arm")
-    src = " ".join(ast.unparse(up.node).split())
-    ok = "is_fitted = self.num_features is not None" in src and \
-        "if is_fitted: self.arm_to_model[arm].init(num_features=self.num_features)" in src
+    from .pattern import find
+    n1, b1 = find("_F_ = self.num_features is not None", up.node)
+    n2, _ = find("if _F_:\n    self.arm_to_model[arm].init(num_features=self.num_features)", up.node, b1) \
+        if b1 else (None, None)
+    n3, _ = find("if self.num_features is not None:\n    self.arm_to_model[arm].init(num_features=self.num_features)",
+                 up.node)
+    ok = n2 is not None or n3 is not None
     ctx.check(ok, "R2.3", "an arm added after a fit gets an initialised model", up.node, up,
               construct="def _Linear._uptake_new_arm")
     # documented reads of each predict
